@@ -4,7 +4,7 @@
      C01_fragment_preservation -- semantic preservation of the backend model (Back/IR.v `lower` + the AST
      twin Pres/EmitAst.v of the text emitter Back/Emit.v) with respect to the reference interpreter
      Sem/SyltSem.v (source side) and the Lua 5.3 interpreter model Lua/LuaCore.v (target side), for the
-     computable fragment Pres/Frag.v `frag` (STAGE 4f: int/bool/string expressions, print, definitions, assignments
+     computable fragment Pres/Frag.v `frag` (STAGE 4g: int/bool/string expressions, print, definitions, assignments
      = += -= *=, if/elif/else expressions and statements, loops with break and continue, blocks, inside
      top-level functions; the outer definitions (global values and FUNCTIONS with parameters, `start` among them, in any
      order the resolver gives them),
@@ -13,7 +13,9 @@
      blocks, loop bodies -- every pass its own closure over its own locals --, if-branches), nested to any depth, that capture the variables of the enclosing functions, MUTABLE locals included -- the
      closure and its definer share the variable and see each other's later assignments, every activation has its
      own locals -- called by name, and passed BY NAME to parameters of function type, where they are called or
-     passed on, and LAMBDA expressions in argument position: FUNCTIONS AS ARGUMENTS).  The Lua side runs the statements of the
+     passed on, and LAMBDA expressions in argument position: FUNCTIONS AS ARGUMENTS; FUNCTIONS THAT RETURN FUNCTIONS -- a
+     lambda as the last expression of the body is a new closure per call over that call's parameters and locals, which
+     outlive the call; the returned function is passed to a parameter of function type or returned again).  The Lua side runs the statements of the
      REAL preamble.lua (Gen/GenPreamble.v, regenerated on every run) followed by the program's statements.
    WHAT IS CHECKED AT RUN TIME, per program of the tie (tools/props/c01.py):
      * component "emit_ast": LuaParse.parse_lua Lua53 (real compiler output) = ParseOk (chunk_ast code), i.e. the
@@ -755,6 +757,75 @@ Proof.
   cbn [r_final] in Hfin. destruct (o_final _); try contradiction. reflexivity.
 Qed.
 
+(* ---- a thirteenth program (stage 4g): functions that return closures.  Every call of mkc returns its own counter (a
+   closure over the mutable local c of THAT call, which lives on after the call); adder returns a closure over its
+   parameter; pass returns what a call of mkc returns ----
+     mkc :: fn n: int -> fn -> int do  c := n  fn -> int do c += 1  c end  end
+     adder :: fn a: int -> fn int -> int do  fn b: int -> int do a + b end  end
+     use2 :: fn f: fn -> int -> int do  f() * 10 + f()  end
+     app :: fn g: fn int -> int, x: int -> int do  g(x)  end
+     pass :: fn m: int -> fn -> int do  mkc(m + 100)  end
+     start :: fn do
+       print(use2(mkc(0)))  print(use2(mkc(5)))        -- 12 67: two counters, each called twice
+       print(app(adder(3), 4))                         -- 7
+       print(use2(pass(1)))                            -- 1123
+     end                                                                                          *)
+Definition tfn0 := TFn [] [] tint false sp0.
+Definition ex_prog13 : resolved :=
+  mkResolved
+    [mkVar 0 "print" sp0 true Const; mkVar 1 "mkc" sp0 true Const; mkVar 2 "adder" sp0 true Const; mkVar 3 "use2" sp0 true Const;
+     mkVar 4 "app" sp0 true Const; mkVar 5 "pass" sp0 true Const; mkVar 6 "start" sp0 true Const; mkVar 7 "== STACK ==" sp0 false Const;
+     mkVar 8 "n" sp0 false Const; mkVar 9 "c" sp0 false Mutable; mkVar 10 "a" sp0 false Const; mkVar 11 "b" sp0 false Const;
+     mkVar 12 "f" sp0 false Const; mkVar 13 "g" sp0 false Const; mkVar 14 "x" sp0 false Const; mkVar 15 "m" sp0 false Const]
+    [SExternalDefinition "print" 0 Const (TImplied sp0) sp0;
+     SDefinition "mkc" 1 Const (TImplied sp0)
+       (EFunction "lambda" [("n"%string, 8%N, sp0, tint)] tfn0
+          [SDefinition "c" 9 Mutable tint (ERead 8 sp0) sp0;
+           SStatementExpression
+             (EFunction "lambda" [] tint
+                [SAssignment Add (ERead 9 sp0) (EInt 1 sp0) sp0; SStatementExpression (ERead 9 sp0) sp0] false sp0) sp0] false sp0) sp0;
+     SDefinition "adder" 2 Const (TImplied sp0)
+       (EFunction "lambda" [("a"%string, 10%N, sp0, tint)] tfn1
+          [SStatementExpression
+             (EFunction "lambda" [("b"%string, 11%N, sp0, tint)] tint
+                [SStatementExpression (EBinOp Add (ERead 10 sp0) (ERead 11 sp0) sp0) sp0] false sp0) sp0] false sp0) sp0;
+     SDefinition "use2" 3 Const (TImplied sp0)
+       (EFunction "lambda" [("f"%string, 12%N, sp0, tfn0)] tint
+          [SStatementExpression (EBinOp Add (EBinOp Mul (call 12 []) (EInt 10 sp0) sp0) (call 12 []) sp0) sp0] false sp0) sp0;
+     SDefinition "app" 4 Const (TImplied sp0)
+       (EFunction "lambda" [("g"%string, 13%N, sp0, tfn1); ("x"%string, 14%N, sp0, tint)] tint
+          [SStatementExpression (call 13 [ERead 14 sp0]) sp0] false sp0) sp0;
+     SDefinition "pass" 5 Const (TImplied sp0)
+       (EFunction "lambda" [("m"%string, 15%N, sp0, tint)] tfn0
+          [SStatementExpression (call 1 [EBinOp Add (ERead 15 sp0) (EInt 100 sp0) sp0]) sp0] false sp0) sp0;
+     SDefinition "start" 6 Const (TImplied sp0)
+       (EFunction "lambda" [] (TImplied sp0)
+          [SStatementExpression (call 0 [call 3 [call 1 [EInt 0 sp0]]]) sp0;
+           SStatementExpression (call 0 [call 3 [call 1 [EInt 5 sp0]]]) sp0;
+           SStatementExpression (call 0 [call 4 [call 2 [EInt 3 sp0]; EInt 4 sp0]]) sp0;
+           SStatementExpression (call 0 [call 3 [call 5 [EInt 1 sp0]]]) sp0]
+          false sp0) sp0].
+
+Example C01_example13_hypotheses :
+  frag 30 ex_prog13 = true /\
+  (exists code, lower 30 ex_prog13 = Ok code) /\
+  SyltSem.run 60 ex_prog13 = mkRun ["12"; "67"; "7"; "1123"]%string ODone.
+Proof. split; [vm_compute; reflexivity | split; [eexists; vm_compute; reflexivity | vm_compute; reflexivity]]. Qed.
+
+Theorem C01_returned_closures_by_theorem code :
+  lower 30 ex_prog13 = Ok code ->
+  exists m, forall m', (m <= m')%nat ->
+    let out := LuaCore.run_block Lua53 m' (chunk_ast code) in
+    o_trace out = ["12"; "67"; "7"; "1123"]%string /\ o_final out = FDone.
+Proof.
+  intros Hl.
+  assert (Hf : frag 30 ex_prog13 = true) by (vm_compute; reflexivity).
+  assert (Hr : SyltSem.run 60 ex_prog13 = mkRun ["12"; "67"; "7"; "1123"]%string ODone) by (vm_compute; reflexivity).
+  destruct (C01_fragment_preservation 30 ex_prog13 code 60 _ Hf Hl Hr I) as (m & Hm).
+  exists m. intros m' Hle. specialize (Hm m' Hle). cbv zeta in *. destruct Hm as [Ht Hfin]. split; [exact Ht|].
+  cbn [r_final] in Hfin. destruct (o_final _); try contradiction. reflexivity.
+Qed.
+
 Print Assumptions C01_fragment_preservation.
 Print Assumptions C01_fragment_preservation_text.
 Print Assumptions C01_activations_own_locals_by_theorem.
@@ -762,6 +833,7 @@ Print Assumptions C01_loop_iteration_closures_by_theorem.
 Print Assumptions C01_strings_by_theorem.
 Print Assumptions C01_functions_as_arguments_by_theorem.
 Print Assumptions C01_lambdas_by_theorem.
+Print Assumptions C01_returned_closures_by_theorem.
 
 (* ---- source tie: the hand-written model behind these theorems mirrors the files below; the digests of their
    functions regenerated from /repo on this run equal the reviewed ones (coq/Doc/DocSrcDigest.v).  Any edit of
